@@ -49,6 +49,8 @@ type scriptSrc struct {
 	pos       int
 	exhausted bool
 	log       []srcCall
+	budget    int  // calls allowed so far; set before every library call
+	overrun   bool // the library asked more often than one reseed per chained request allows
 }
 
 func streamByte(p int) byte {
@@ -69,6 +71,11 @@ func (r *scriptSrc) take(p []byte, n int) []byte {
 
 func (r *scriptSrc) Read(p []byte) (int, error) {
 	call := len(r.log)
+	if call >= r.budget {
+		// a correct wrapper needs at most one reseed per chained request: stop a reseed loop here
+		r.overrun = true
+		return 0, engine.ErrInjected
+	}
 	if r.exhausted {
 		r.log = append(r.log, srcCall{req: len(p), ans: ansEOF})
 		return 0, io.EOF
@@ -199,7 +206,7 @@ func runPrng(t *engine.T, in *inst, chunk, strength int, pers []byte, seq []pev,
 	fail := func(key, format string, a ...any) {
 		t.Fail(key+"/"+in.tag(), "%s — %s", ctx(), fmt.Sprintf(format, a...))
 	}
-	src := &scriptSrc{fault: fault}
+	src := &scriptSrc{fault: fault, budget: 8}
 	var prng *drbg.DrbgPrng
 	var err error
 	t0 := time.Now()
@@ -208,6 +215,10 @@ func runPrng(t *engine.T, in *inst, chunk, strength int, pers []byte, seq []pev,
 	}
 	t1 := time.Now()
 	strict, lenient, which := served(src.log)
+	if src.overrun {
+		fail("prng/new/entropy-read-loop", "constructor read the entropy source more than %d times", len(src.log))
+		return len(src.log)
+	}
 	if err != nil || prng == nil {
 		if !strict && !lenient {
 			fail("prng/new/spurious-error", "constructor failed although the source answered every call in full: %v", err)
@@ -254,6 +265,7 @@ func runPrng(t *engine.T, in *inst, chunk, strength int, pers []byte, seq []pev,
 		buf := make([]byte, ev.size+16)
 		sentinel(buf)
 		mark := len(src.log)
+		src.budget = mark + (ev.size+chunk-1)/chunk + 2
 		var n int
 		t0 := time.Now()
 		if t.Guard("prng/read", func() { n, err = prng.Read(buf[:ev.size]) }) {
@@ -262,6 +274,10 @@ func runPrng(t *engine.T, in *inst, chunk, strength int, pers []byte, seq []pev,
 		t1 := time.Now()
 		calls := src.log[mark:]
 		strict, lenient, which := served(calls)
+		if src.overrun {
+			fail("prng/read/reseed-loop"+afterFault, "Read(%d) (%d chained requests) read the entropy source more than %d times: a reseed succeeded and the request was still refused", ev.size, (ev.size+chunk-1)/chunk, len(calls))
+			return len(src.log)
+		}
 		if !sentinelIntact(buf, ev.size) {
 			fail("prng/read/writes-beyond-request", "Read(%d) wrote behind the buffer", ev.size)
 			return len(src.log)
